@@ -264,3 +264,24 @@ func fatalf(format string, a ...interface{}) {
 }
 
 func timeUp(jc *JobCtx) bool { return !jc.Deadline.IsZero() && time.Now().After(jc.Deadline) }
+
+// jobsFor returns the job list of a property and tier. The thorough tier starts with every job of the
+// quick tier (so that its coverage is complete even if the wall-clock cap ends the deeper jobs early)
+// followed by the thorough-only jobs.
+func jobsFor(p *propDef, tier string) []Job {
+	if tier != "thorough" {
+		return p.Jobs(tier)
+	}
+	jobs := p.Jobs("quick")
+	seen := map[string]bool{}
+	for _, j := range jobs {
+		seen[j.Name] = true
+	}
+	for _, j := range p.Jobs("thorough") {
+		if !seen[j.Name] {
+			seen[j.Name] = true
+			jobs = append(jobs, j)
+		}
+	}
+	return jobs
+}
